@@ -30,3 +30,7 @@ package acracensor
 //@   at call Parser.HandleRawSQLQuery : assert arg[0] == rawQuery
 //@   at call QueryHandlerInterface.CheckQuery : assert arg[0] == ret(Parser.HandleRawSQLQuery)[0] && arg[1] == ret(Parser.HandleRawSQLQuery)[2]
 //@   at call QueryIgnoreHandler.CheckQuery : assert arg[0] == rawQuery
+
+// Log discipline: neither the raw statement text nor its normalized (literal-bearing) form reaches a logger;
+// only the redacted text does. Decided by data-flow inspection of the SSA (structural obligation).
+//@ structural censor-logs-only-redacted props C16 : noflow HandleQuery from param:rawQuery,ret:Parser.HandleRawSQLQuery:0 to logrus.* clean Parser.HandleRawSQLQuery
